@@ -439,11 +439,31 @@ func typeEdit(r *rng.R, cs *gen.Case) (kind, where string) {
 			return "send-all-shape", "send.source"
 		case 8, 9: // ill-typed arithmetic
 			sl := exprSlots(sc)
-			var cands []slot
+			var cands, anys []slot
 			for _, s := range sl {
 				if s.want != "any" {
 					cands = append(cands, s)
+				} else {
+					anys = append(anys, s)
 				}
+			}
+			op := byte('+')
+			if r.Bool() {
+				op = '-'
+			}
+			if len(anys) > 0 && r.Chance(1, 4) {
+				// a position that takes a value of any type still needs + and - to be well typed
+				s := anys[r.Intn(len(anys))]
+				switch r.Intn(3) {
+				case 0:
+					s.set(&gen.Infix{Op: op, L: litOfType(r, "number"), R: litOfType(r, "monetary")})
+				case 1:
+					s.set(&gen.Infix{Op: op, L: litOfType(r, "monetary"), R: litOfType(r, "number")})
+				default:
+					t := r.Pick("string", "account", "asset", "portion")
+					s.set(&gen.Infix{Op: op, L: litOfType(r, t), R: litOfType(r, r.Pick(t, "number"))})
+				}
+				return "infix", s.where + ">any"
 			}
 			if len(cands) == 0 {
 				continue
@@ -452,10 +472,6 @@ func typeEdit(r *rng.R, cs *gen.Case) (kind, where string) {
 			old := s.get()
 			if _, isInfix := old.(*gen.Infix); isInfix {
 				continue
-			}
-			op := byte('+')
-			if r.Bool() {
-				op = '-'
 			}
 			switch r.Intn(4) {
 			case 0: // keep the left operand, add an operand the operator cannot take
